@@ -1,6 +1,7 @@
 SPECIFICATION Spec
 CONSTANTS
   Deviations <- NoDevs
+  Ranks <- R234
   Big = TRUE
 INVARIANT DesignOK
 INVARIANT WellFormed
